@@ -3,9 +3,9 @@ From Coq Require Import ZArith List Reals.
 From P Require Import C13_gen C13_model C13_proofs_weights C13_proofs_f1.
 Import ListNotations.
 
-(* partial: at most 32 points per direction (enclosures by interval arithmetic, one per n) *)
+(* partial: at most 64 points per direction (enclosures by interval arithmetic, one per n) *)
 Theorem fourier1_sum_bound3_partial : forall vol n0 n1 n2,
-  (1 <= n0 <= 32)%Z -> (1 <= n1 <= 32)%Z -> (1 <= n2 <= 32)%Z -> vol <> 0%R ->
+  (1 <= n0 <= 64)%Z -> (1 <= n1 <= 64)%Z -> (1 <= n2 <= 64)%Z -> vol <> 0%R ->
   (Rabs (sumR (fourier1_weights3 vol n0 n1 n2) / vol - 1) <= 1 / IZR n0 + 1 / IZR n1 + 1 / IZR n2)%R.
 Proof. exact fourier1_sum_bound3_partial_lemma. Qed.
 Print Assumptions fourier1_sum_bound3_partial.
